@@ -50,6 +50,8 @@
 (*             order has been passed over without reason (reason = tried,  *)
 (*             already a victim, or useless for what is still short)       *)
 (*        (Rl) the returned ReleaseList is the sum over the victims        *)
+(*        (Pr) on return a task is left uncovered only if no remaining     *)
+(*             candidate could still help it (no premature stop)           *)
 (*  design level    a transcription of the loop of KillAndEvictPods as a   *)
 (*      process (Next); TLC checks over a bounded universe of cases that   *)
 (*      every call it makes is allowed by the property level (MC).         *)
@@ -172,7 +174,13 @@ PropEvict(C, p, t, ok) == /\ EvictAllowed(C, victims, tried, p, t)
 RetOK(C, V, released) ==
   \A t \in TaskIds(C) : \A r \in Needed(C, t) :
      (IF TT(C, t) \in DOMAIN released THEN Val(released[TT(C, t)], r) ELSE 0) = Released(C, TT(C, t), r, V)
-PropRet(C, released) == RetOK(C, victims, released) /\ UNCHANGED pvars
+\* when the loop returns, a task is left uncovered only if no candidate could still help it: every candidate has
+\* been tried, is a victim, or frees nothing of what the task is still short of  ("stops as soon as", not before)
+PrOK(C, V, Tr) ==
+  \A t \in TaskIds(C) :
+     Covered(C, t, V) \/ \A x \in Rng(List(C, t)) :
+                            x \in Tr \/ x \in V \/ C.pods[x].already \/ ~Useful(C, t, x, V)
+PropRet(C, released) == RetOK(C, victims, released) /\ PrOK(C, victims, tried) /\ UNCHANGED pvars
 
 \* stronger reading of (St), NOT used for verdicts (see README of proposed_fixes/C11 and the final report): the release
 \* of EVERY already-evicted candidate counts from the start, not only of those the loop has come across
@@ -253,7 +261,7 @@ Next == Enter \/ ListEnd \/ SkipVictim \/ Pending \/ SkipUselessPod \/ DoEvict
 NoViolation == ~viol
 \* the loop's own account equals the sum over the victims (so the returned list satisfies (Rl))
 AccountExact == \A T \in DOMAIN rel : \A r \in DOMAIN rel[T] : rel[T][r] = Released(cs, T, r, victims)
-ReturnOK == (~Running) => RetOK(cs, victims, rel)
+ReturnOK == (~Running) => (RetOK(cs, victims, rel) /\ PrOK(cs, victims, tried))
 \* the stronger reading of (St) (informational only, MC_strict.cfg; it does NOT hold for the loop, repaired or not)
 NoStrictViolation == ~violS
 =============================================================================
